@@ -119,6 +119,18 @@ def run(tier: str, seed: int) -> int:
             if not np.array_equal(back, c):
                 violation(chk, n, p, f"round trip fails for cell {c[0].tolist()}")
             recs.append(dict(op="refine", n=n, p=p, dg=digits(d[0], p, n), dgp=digits(dp[0], p - 1, n)))
+    # coordinate arrays of narrower integer types (the distance needs n * p bits, more than the coordinate type holds)
+    for n, p, dt in ((2, 10, "int16"), (2, 5, "uint8"), (2, 16, "int32"), (2, 16, "uint32"), (3, 6, "uint8"), (1, 20, "int32"), (2, 12, "uint16")):
+        side = 1 << p
+        c64 = np.array([[rng.randrange(side) for _ in range(n)] for _ in range(60)] + [[side - 1] * n, [0] * n], dtype=np.int64)
+        if side - 1 > np.iinfo(dt).max:
+            continue
+        want = hc.distances_from_coordinates(p, c64.copy())
+        got = hc.distances_from_coordinates(p, c64.astype(dt))
+        chk.count(len(c64))
+        if not np.array_equal(np.asarray(got).astype(np.int64), np.asarray(want)) or (np.asarray(got) < 0).any():
+            i = int(np.nonzero(np.asarray(got).astype(np.int64) != np.asarray(want))[0][0])
+            violation(chk, n, p, f"coordinates given as {dt}: cell {c64[i].tolist()} gets distance {int(got[i])}, as int64 {int(want[i])}")
     # large batches whose length is not a power of two (a vectorised entry point may split the rows into chunks / switch to a parallel
     # build above some size): both directions, compared row by row with the scalar entry points on a sample that includes the tail,
     # round trips on every row, and a sample (with the tail) judged by TLC for n = 2
